@@ -248,6 +248,28 @@ Proof.
   apply map_nth.
 Qed.
 
+(* several solve calls, parameter object replaced in between: every step carries the temperature of the
+   schedule in force during its own segment *)
+Lemma run_seg_spec d sg :
+  run_seg Rops d sg = mkPD Rops (p_time Rops d ++ snd sg) (p_temp Rops d ++ map (sched Rops (fst sg)) (snd sg)).
+Proof. unfold run_seg. apply fold_post. Qed.
+
+Lemma fold_seg segs : forall d,
+  fold_left (run_seg Rops) segs d =
+    mkPD Rops (p_time Rops d ++ concat (map snd segs))
+              (p_temp Rops d ++ concat (map (fun sg => map (sched Rops (fst sg)) (snd sg)) segs)).
+Proof.
+  induction segs as [|sg segs IH]; intros d.
+  - simpl. rewrite !app_nil_r. destruct d; reflexivity.
+  - cbn [fold_left map concat]. rewrite IH, run_seg_spec. cbn [p_time p_temp]. rewrite <- !app_assoc. reflexivity.
+Qed.
+
+Lemma run_segs_spec p0 t0 segs :
+  p_time Rops (run_segs Rops p0 t0 segs) = t0 :: concat (map snd segs) /\
+  p_temp Rops (run_segs Rops p0 t0 segs) =
+    sched Rops p0 t0 :: concat (map (fun sg => map (sched Rops (fst sg)) (snd sg)) segs).
+Proof. unfold run_segs. rewrite fold_seg. split; reflexivity. Qed.
+
 (* diffusion package *)
 Lemma dctor_setter prev a : a <> DA0 -> dctor Rops a = dvia_setter Rops prev a.
 Proof. destruct a; intros H; try reflexivity. congruence. Qed.
